@@ -195,6 +195,13 @@ struct Dumper {
     } else if (const auto *U = dyn_cast<UnresolvedLookupExpr>(S)) {
       O["name"] = U->getName().getAsString();
       if (U->hasExplicitTemplateArgs()) O["targs_txt"] = tmplArgsText(U->template_arguments());
+      if (U->getQualifier()) {
+        std::string Q;
+        llvm::raw_string_ostream OS(Q);
+        U->getQualifier()->print(OS, PrintingPolicy(*X.LO));
+        O["qual"] = OS.str();
+      }
+      O["adl"] = U->requiresADL();
     } else if (const auto *U = dyn_cast<UnresolvedMemberExpr>(S)) {
       O["name"] = U->getMemberName().getAsString();
       O["implicit"] = U->isImplicitAccess();
